@@ -414,3 +414,52 @@ pub fn count_elem(e: &AElem) -> usize {
             })
             .sum::<usize>()
 }
+
+/// one-step simplifications of a document (for minimisation)
+pub fn shrink_candidates(d: &ADoc) -> Vec<ADoc> {
+    let mut out = vec![];
+    for i in 0..d.before.len() {
+        let mut c = d.clone();
+        c.before.remove(i);
+        out.push(c);
+    }
+    for i in 0..d.after.len() {
+        let mut c = d.clone();
+        c.after.remove(i);
+        out.push(c);
+    }
+    fn elem_variants(e: &AElem) -> Vec<AElem> {
+        let mut out = vec![];
+        for i in 0..e.kids.len() {
+            let mut c = e.clone();
+            c.kids.remove(i);
+            // never create adjacent text
+            let adj = c.kids.windows(2).any(|w| matches!((&w[0], &w[1]), (AContent::Text(_), AContent::Text(_))));
+            if !adj {
+                out.push(c);
+            }
+        }
+        for i in 0..e.attrs.len() {
+            let mut c = e.clone();
+            c.attrs.remove(i);
+            out.push(c);
+        }
+        for (i, k) in e.kids.iter().enumerate() {
+            if let AContent::Elem(ch) = k {
+                for var in elem_variants(ch) {
+                    let mut c = e.clone();
+                    c.kids[i] = AContent::Elem(var);
+                    out.push(c);
+                }
+            }
+        }
+        out
+    }
+    for var in elem_variants(&d.root) {
+        let mut c = d.clone();
+        c.root = var;
+        out.push(c);
+    }
+    out
+}
+
